@@ -17,7 +17,7 @@ func init() { register(c09{}) }
 func (c09) ID() string    { return "C09" }
 func (c09) Level() string { return "exploration" }
 func (c09) Rule() string {
-	return "valid frames from the reference encoder (all types, property permutations, biased towards boolean properties and subscription identifiers) are mutated using the encoder's field map: (a) cut at every offset strictly inside a field — two/four-byte integers, string/binary length prefix or body, multi-byte variable byte integers, between a property identifier and its value, inside a user property — with the remaining length rewritten (fields over 64 bytes: first 2, last 2 and log-spaced interior offsets; the raw PUBLISH payload is exempt); (b) every variable byte integer (remaining length, property lengths, subscription identifiers) replaced by five-byte continuations with enclosing lengths adjusted; (c) every boolean property x all values 2..255; (d) property identifier positions (first, last, up to four more) x all 229 identifiers MQTT v5.0 does not define, plus an undefined property appended. Oracle: ReadPacket returns (nil, error) normally. distinct = (base frame digest, class, offset, value); non-trivial = every mutated frame (each enters the decoder)"
+	return "valid frames from the reference encoder (all types, property permutations, biased towards boolean properties and subscription identifiers) are mutated using the encoder's field map: (a) cut at every offset strictly inside a field — two/four-byte integers, string/binary length prefix or body, multi-byte variable byte integers, between a property identifier and its value, inside a user property — with the remaining length rewritten (fields over 64 bytes: first 2, last 2 and log-spaced interior offsets; the raw PUBLISH payload is exempt); (b) every variable byte integer (remaining length, property lengths, subscription identifiers) replaced by five-byte continuations with enclosing lengths adjusted; (c) every boolean property x all values 2..255; (d) property identifier positions (first, last, up to four more) x all 229 identifiers MQTT v5.0 does not define, plus an undefined property appended. Oracle: ReadPacket returns (nil, error) normally. distinct = (base frame digest, class, offset, value); non-trivial = every mutated frame (each enters the decoder) Every mutated frame is read twice: from a *bytes.Reader and from a reader that offers Read only (no ReadByte or other method a library could discover); both readings must reject."
 }
 func (c09) Assumptions() []string {
 	return []string{"the reference encoder's field map tiles the frame exactly (verified per base frame)", "the 229 undefined identifiers come from the reference property table, not from the library's constants"}
@@ -98,6 +98,19 @@ func (c09) Run(c *run.Ctx, phase, idx int) {
 			c.Violation("C09/accepted/"+class+"/"+fieldKind+"/"+T, fmt.Sprintf("%s frame, %s at offset %d (%s, value %d): ReadPacket returned a packet", T, class, off, fieldKind, val), det())
 		case !res.PairOK():
 			c.Violation("C09/pair/"+class, "ReadPacket returned neither packet nor error", det())
+		}
+		// the same frame through a reader that has Read and nothing else (a
+		// library may take another path for readers with ReadByte; round 12, V3-b)
+		res2 := libReadPlain(m)
+		c.Eval(1)
+		c.Count("reader", "plain (Read only)", 1)
+		switch {
+		case res2.Panic != nil:
+			c.Violation("C09/panic/"+class+"/"+fieldKind+"/"+res2.Panic.Where, fmt.Sprintf("%s frame, %s at offset %d (%s), reader with Read only: ReadPacket panicked: %s", T, class, off, fieldKind, res2.Panic.String()), det())
+		case res2.Accepted():
+			c.Violation("C09/accepted/"+class+"/"+fieldKind+"/"+T+"/plain-reader", fmt.Sprintf("%s frame, %s at offset %d (%s, value %d): ReadPacket returned a packet when the reader offers Read only", T, class, off, fieldKind, val), det())
+		case !res2.PairOK():
+			c.Violation("C09/pair/"+class, "ReadPacket returned neither packet nor error (reader with Read only)", det())
 		}
 	}
 
